@@ -65,10 +65,24 @@ def z2s_analysis(prog: Program, rep: Report, rule: str) -> None:
         raise AnalysisError("z2s_kernel: np.searchsorted call not found")
     zr, target, side = srch
     rep.check(rule, fi.qual, "searchsorted target", isinstance(target, NF) and target == -NF.atom("Z") and side == "'left'", what_bad=f"level lookup must bisect the level depths for -Z (depth is positive downwards), got {vtext(target)} side={side}", what_ok="k = searchsorted(zr, -Z)", loc=fi.loc())
+    def own_column(v):
+        v = it.num(v)
+        if not isinstance(v, NF):
+            return False, vtext(v)
+        info = dom.elem_info.get(v.canon())
+        return info is not None and len(info[1]) == 3 and isinstance(info[1][0], tuple) and isinstance(info[1][1], NF) and info[1][1] == NF.atom("J") and info[1][2] == NF.atom("I"), v.canon()
+
+    arms = roms.flatten_phi(zr)
+    if len(arms) > 1:
+        # the column searched depends on a run-time branch (e.g. a column cached across particles)
+        wrong = [(conds, own_column(leaf)[1]) for conds, leaf in arms if not own_column(leaf)[0]]
+        rep.check(rule, fi.qual, "column lookup z_rho[:, J, I]", not wrong, what_bad=f"on the branch {[(t, k) for t, k in wrong[0][0]] if wrong else ''} the level depths searched are {wrong[0][1] if wrong else ''}, not the column of the particle's own cell", what_ok="own column on every branch", loc=fi.loc())
+        if wrong:
+            return
+        zr = arms[0][1]
     zr_nf = it.num(zr)
     col_atom = zr_nf.canon()
-    info = dom.elem_info.get(col_atom)
-    ok_col = info is not None and len(info[1]) == 3 and isinstance(info[1][0], tuple) and isinstance(info[1][1], NF) and info[1][1] == NF.atom("J") and info[1][2] == NF.atom("I")
+    ok_col = own_column(zr_nf)[0]
     rep.check(rule, fi.qual, "column lookup z_rho[:, J, I]", ok_col, what_bad=f"the level depths must be the column of the particle's own cell (y index second, x index last), got {col_atom}", what_ok=col_atom, loc=fi.loc())
     if not (isinstance(res, Tup) and len(res.items) == 2):
         rep.bad(rule, fi.qual, "return value", f"expected (K, A), got {res!r}", fi.loc())
@@ -506,6 +520,10 @@ def run(prog: Program, rep: Report, tier: str) -> None:
     rep.rule("R02.3", "level lookup: per k-region the (K, A) pair interpolates -Z linearly / holds the end level", 6)
     rep.rule("R02.4", "land faces: returned u, v are multiplied by Mu, Mv built from adjacent rho-masks along the matching axis", 12)
     rep.rule("R02.5", "packing: scale_factor (and add_offset for scalars) of the variable's own key, only when packed", 6)
+    rep.rule("R02.6", "the per-particle level index and weight (K, A) are recomputed from the current positions in every forcing update before they are used (shared with C14 R14.6)", 2)
+    from . import c14
+
+    c14.step_attribute_freshness(prog, rep, "R02.6", roles=("forcing",))
     trilinear_weights(prog, rep, "R02.2")
     z2s_analysis(prog, rep, "R02.3")
     z2s_call(prog, rep, "R02.3")
